@@ -98,9 +98,20 @@ func TestGenC13(t *testing.T) {
 	// live idle peer: all packets delivered after a latency below the pong timeout
 	for _, pp := range settings {
 		// one-way latencies; the response to a ping takes two of them and stays below the pong timeout
-		for _, lat := range []time.Duration{0, 100 * time.Millisecond, pp[1]/2 - time.Millisecond, pp[1] / 4} {
+		for li, lat := range []time.Duration{0, 100 * time.Millisecond, pp[1]/2 - time.Millisecond, pp[1] / 4, 0, 100 * time.Millisecond} {
+			// the last two rounds: every second ACK is lost (the answer to a ping then is the NACK that the
+			// retransmitted ping draws); only where the pong timeout leaves room for a retransmission (1 s)
+			lossyAcks := li >= 4
+			if lossyAcks && pp[1] < 2500*time.Millisecond {
+				continue
+			}
 			id++
 			cfg := simCfg{id: fmt.Sprintf("a%d", id), n: 3, ping: pp[0], pong: pp[1]}
+			if lossyAcks {
+				// a static resend timeout: with the adaptive one every lost ACK boosts the timeout (samples are rare),
+				// until a retransmission comes later than the pong timeout and a lost answer legitimately closes
+				cfg.static = time.Second
+			}
 			l.keep = l.keep[:0]
 			l.o.line("BEGIN %s n=3 chunk=0 ping=%d pong=%d class=alive", cfg.id, int64(pp[0]), int64(pp[1]))
 			idle := time.Duration(scale(600, 3600)) * time.Second
@@ -116,12 +127,20 @@ func TestGenC13(t *testing.T) {
 				}
 				start := time.Now()
 				closed := false
+				acks := 0
 				for time.Since(start) < idle && !closed {
 					// every packet is delivered exactly `lat` after it was transmitted
 					moved := false
 					for x := 0; x < 2; x++ {
 						for s.canOp(x) && s.headAge(x) >= lat {
-							s.op(x, "deliver")
+							what := "deliver"
+							if h := s.head(x); lossyAcks && len(h) == 2 && h[0] == 3 {
+								acks++
+								if acks%2 == 1 {
+									what = "drop"
+								}
+							}
+							s.op(x, what)
 							moved = true
 						}
 					}
@@ -140,8 +159,8 @@ func TestGenC13(t *testing.T) {
 				}
 				closed = closed || isClosed(s, 0) || isClosed(s, 1)
 				q.check(!closed, "c13:live-peer-closed", func() string {
-					return fmt.Sprintf("scenario %s: ping=%v pong=%v latency=%v: an idle connection whose pings are all answered was closed after %v; last events %v",
-						cfg.id, pp[0], pp[1], lat, time.Since(start), lastN(l.keep, 30))
+					return fmt.Sprintf("scenario %s: ping=%v pong=%v latency=%v every-second-ACK-lost=%v: an idle connection whose pings are all answered was closed after %v; last events %v",
+						cfg.id, pp[0], pp[1], lat, lossyAcks, time.Since(start), lastN(l.keep, 30))
 				})
 				s.finish(base)
 			})
@@ -150,6 +169,9 @@ func TestGenC13(t *testing.T) {
 				q.fail("c13:bubble-panic", cfg.id+": "+truncate(pan, 300))
 			}
 			q.stat("live_peer_scenarios", 1)
+			if lossyAcks {
+				q.stat("live_peer_scenarios_with_lost_acks", 1)
+			}
 			q.stat("distinct_nontrivial", 1)
 		}
 	}
